@@ -20,7 +20,7 @@ from .. import corpus, matcher, ptrace
 PRELUDE = "typedef int T; int n; "
 NPRE = 2
 
-ALL_CTX = ["file", "block", "forinit", "param", "member", "typedef", "typename"]
+ALL_CTX = ["file", "block", "forinit", "param", "absparam", "member", "typedef", "typename"]
 
 
 def render(case, sub=None):
@@ -35,7 +35,7 @@ def render(case, sub=None):
     if ctx == "forinit":
         return [(ctx, PRELUDE + "void f(void) { for (" + t + " ; ; ) ; }",
                  lambda a: a.ext[NPRE].body.block_items[0].init.decls)]
-    if ctx == "param":
+    if ctx in ("param", "absparam"):
         return [(ctx, PRELUDE + "void f(" + t + ");", lambda a: a.ext[NPRE].type.args.params[:1])]
     if ctx == "member":
         return [(ctx, PRELUDE + "struct M { " + t + " ; };", lambda a: a.ext[NPRE].type.decls[:k])]
@@ -157,7 +157,7 @@ def run(tier):
               squals='{<<"volatile","const">>, <<"const","volatile">>, <<"volatile","const","volatile">>}',
               ptrquals='{<<>>, <<"volatile","const">>, <<"const","volatile">>}', dims=["3"], params=["int_p"])),
         ("typedef name as the only parameter of an abstract function declarator (6.7.6.3p11)",
-         dict(deriv=3, ctxs=["param", "typename"], bases=["int", "tdef"], dims=["3"], params=["T", "int"], ptrquals='{<<>>, <<"const">>}')),
+         dict(deriv=3, ctxs=["param", "absparam", "typename"], bases=["int", "tdef"], dims=["3"], params=["T", "int"], ptrquals='{<<>>, <<"const">>}')),
         ("two declarators sharing specifiers, <=2 wrappers each",
          dict(deriv=2, decls=2, ctxs=["file", "block", "forinit", "member", "typedef"], bases=["int", "sdef", "edef", "tdef"],
               squals='{<<>>, <<"const">>}', dims=["3"], params=["int_p"], ptrquals='{<<>>, <<"const">>}', parens=False)),
